@@ -145,6 +145,22 @@ CHECKS.update({
         technique='Coq proof (invariants of an interleaving transition system) + schedule-replay correspondence on real threads', ref='6/C20'),
 })
 
+CHECKS.update({
+    'C13': dict(
+        text='Coq theorems over an interleaving transition system of RamSession.acquire_lock / release_lock / _regenerate / clean_up at '
+             'the granularity of shared-table fetches and lock operations (any number of request threads plus the sweep, session '
+             'new/live/expired): in every reachable state at most one thread is between a completed acquire_lock and its '
+             'release_lock for an id (a thread in its critical section owns the lock object currently in the table), hence no '
+             'lost update; and over the session hooks plugged into the pipeline model: the lock count is 0 after close() for every '
+             'request outcome. Schedules enumerated on the real threads under a deterministic scheduler are replayed through the '
+             'extracted model and journals compared; the hook table (points, priorities, failsafe flags) is regenerated from the '
+             'sources each run (tie).',
+        note='filelock / OS locking across processes is trusted (file backend: abstract mutex per path); bytecode atomicity of dict '
+             'operations (GIL) assumed; progress only under fairness (c13_progress_partial); the runtime cannot be exhibited by the '
+             'model beyond the scheduling points.',
+        technique='Coq proof (mutual-exclusion invariant of an interleaving transition system) + generated hook-table tie + schedule-replay correspondence', ref='6/C13'),
+})
+
 PENDING = {}
 
 
